@@ -650,6 +650,8 @@ def parse(out):
             cur.routes.append((t[1], t[2], float(t[3]), t[5:5 + n], None))
         elif k == "X" and len(t) >= 3:
             cur.routes.append((t[1], t[2], None, None, " ".join(t[3:])))
+        elif k == "XC" and len(t) >= 4:
+            cur.routes.append((t[1], t[2], None, None, "CRASH " + t[3]))
         elif k == "LR":
             n = int(t[7])
             cur.local[(t[1], t[2], t[3])] = dict(gw_src=None if t[4] == "-" else t[4], gw_dst=None if t[5] == "-" else t[5],
@@ -685,7 +687,7 @@ def run_batch(flavour, plats, cpu_budget, wall_budget, scratch):
         for p in plats:
             f.write(p.spec())
     outer = 60 + len(plats) * (wall_budget + 1)
-    r = proc.run([exe, path, repr(float(cpu_budget)), repr(float(wall_budget)), "--log=root.thres:critical"], timeout=outer)
+    r = proc.run([exe, path, repr(float(cpu_budget)), repr(float(wall_budget)), "--log=root.thres:critical", "--cfg=debug/stacktrace:none"], timeout=outer)
     os.unlink(path)
     res = parse(r.out)
     for p in plats:
